@@ -316,3 +316,5 @@ _quick("C12", "C12_candidate_commit", "the candidate's own commit round fails (r
 _quick("C11", "C11_shared", "holder A (Count 5) with default / persist-immediately / never-persist timing, then B asks for the key with the require-ack flag, one follower configured: B is not reported SUCCED before its record is written and acknowledged, and is registered for acknowledgement", ["-witness", "3"])
 
 _quick("C07", "C07_relock", "a hold locked with E = 2 s (Rcount 2, persisted at once) and re-locked by its LockId one second later with E = 120 s; restart 0 / 2 / 6 s later: depth 2 and the re-lock's deadline restored", ["-witness", "3"])
+
+_quick("C07", "C07_ms", "a hold with the millisecond flag and E = 30000 ms, persisted at once; restart 0 / 6 / 20 s later: restored with its original deadline to within a second", ["-witness", "3"])
